@@ -664,18 +664,23 @@ def correspondence(ctx):
         ctx.violation("model/implementation disagree on %s at op %d (%s): impl=%r model=%r; the property monitor found no property failure on this case"
                       % (tag, d, ls[d] if d < len(ls) else "?", (c[a:b] + ["<missing>"])[d] if d <= len(c[a:b]) else "?", (m[a:b] + ["<missing>"])[d]),
                       dict(kind="tie", correspondence="zvh_params vs Model/Params.lean", case=tag, ops=ls, impl=c[a:b], model=m[a:b], first_diff=d), no_input=True)
-    tags = {}
+    # what the reset directives drop on the decoding side, the references collected under ZSTD_d_refMultipleDDicts included ("a parameter reset restores
+    # every default and drops dictionaries"): histories over one context and a pool of DDicts, judged by tools/ddset.py
+    import ddset
+    dlines = ddset.run(ctx, "C16", dict(reset=ddset.gen_reset(ddset.hx("plain"), ctx.rng, 80 if ctx.quick() else 2000)))
+    tags = {"ddict-set-across-resets": len(dlines)}
     for tag, ls in cases:
         tags[tag] = tags.get(tag, 0) + 1
-    distinct = len({tuple(ls) for tag, ls in cases})
+    distinct = len({tuple(ls) for tag, ls in cases}) + len(set(dlines))
     sets = {ln for tag, ls in cases for ln in ls if ln.startswith("set")}
-    return dict(evaluations=len(lines), distinct_nontrivial=distinct,
+    return dict(evaluations=len(lines) + len(dlines), distinct_nontrivial=distinct,
                 rule="exhaustive grid: every parameter (regenerated from zstd.h) x {lo-1,lo,lo+1,0,default,hi-1,hi,hi+1,INT_MIN,INT_MAX,1,2,5,-1} x "
                      "{fresh, mid-frame, after error, after each reset kind, after a whole ZSTD_compressSequences frame, after deferred stable input} x {CCtx, CCtx_params, DCtx, static CCtx, static DCtx} + random op sequences; "
                      "compression parameters applied to following frames (every parameter x value, level x parameter pairs); raw-level entry points "
                      "(getCParams/getParams/compressCCtx/compress_usingDict/compressBegin[_usingDict]/createCDict[_byReference]/CCtxParams_init/initCStream) x levels "
                      "{INT_MIN .. lo-1, lo .. hi, hi+1 .. INT_MAX} x source sizes around the table tiers x dictionary sizes; a case is distinct by its op list; "
-                     "every op's full parameter read-back is compared with the Lean model and checked by a model-independent monitor",
+                     "every op's full parameter read-back is compared with the Lean model and checked by a model-independent monitor; "
+                     "decoder histories over a pool of DDicts: ZSTD_d_refMultipleDDicts x refDDict x the three reset directives x frames of dictionaries referenced before / after the reset",
                 samples=[dict(case=cases[i][0], ops=cases[i][1], impl=c[spans[i][0]:spans[i][1]][-1][:160]) for i in (0, len(cases) // 2, len(cases) - 1)],
                 case_kinds=tags, distinct_set_ops=len(sets), exhaustive=True, model_impl_disagreements=len(bad))
 
@@ -695,6 +700,9 @@ def search_failing_input(ctx, broken, log):
 
 
 def replay(ctx, data):
+    if str(data.get("op", "")).startswith("ddh "):
+        import ddset
+        return ddset.replay(ctx, data)
     exe = harness()
     ops = data.get("ops") or (data.get("witness") or {}).get("ops")
     if not ops:
